@@ -36,7 +36,7 @@ def gen_tree(rng, depth, names, url_names=False, p_readme=0.4, servings_pool=(No
                                  servings=rng.choice(servings_pool), links=[]))
     if rng.random() < 0.3:
         counter[0] += 1
-        d["assets"].append(dict(file=rng.choice(["img", "data set", "pic#1"] if url_names else ["img", "data set"]) + str(counter[0]) + rng.choice([".png", ".txt", ".bin"]),
+        d["assets"].append(dict(file=rng.choice(["img", "data set", "pic#1"] if url_names else ["img", "data set"]) + str(counter[0]) + rng.choice([".png", ".txt", ".bin", ".html", ".svg"]),
                                 data=bytes(rng.randrange(256) for _ in range(rng.randint(0, 64)))))
     if depth > 0:
         for i in range(rng.randint(0, 3)):
@@ -220,3 +220,33 @@ def resolve(page_path, url):
     if unquote(parts.path).endswith("/") and target != "/":
         target += "/"
     return target
+
+
+def regenerate_same_directory(M=3):
+    """a small fixed site generated twice into the SAME output directory; between the two runs a quantity of a recipe and the bytes of a
+    linked local file are changed without changing any file's length, the linked file keeping its old modification time (as after
+    `cp -p` / a restore from backup); then the same final sources are generated into a fresh directory.
+    Returns (scratch, out_same, out_fresh, source root); the caller removes scratch."""
+    import os
+    from recipe_grid.static_site.website import generate_static_site
+    scratch = scratch_root()
+    src = scratch / "book"
+    (src / "mains").mkdir(parents=True)
+    recipe = "# Omelette for 2\n\nBeat {%d} eggs.\n\n    %d eggs\n    100 ml milk\n\n[Ltimes](oven.csv) ![Ipic](pic.bin)\n"
+    (src / "mains" / "omelette.md").write_text(recipe % (2, 2))
+    (src / "mains" / "oven.csv").write_bytes(b"temp,180\n")
+    (src / "mains" / "pic.bin").write_bytes(bytes(range(64)))
+    (src / "plain.md").write_text("# Toast\n\n    2 slices bread\n")
+    out = scratch / "out"
+    generate_static_site(src, out, M)
+    for name, data in (("oven.csv", b"temp,190\n"), ("pic.bin", bytes(reversed(range(64))))):
+        f = src / "mains" / name
+        st = f.stat()
+        f.write_bytes(data)
+        os.utime(f, ns=(st.st_atime_ns, st.st_mtime_ns))
+    (src / "mains" / "omelette.md").write_text(recipe % (3, 3))
+    (src / "plain.md").write_text("# Toast\n\n    3 slices bread\n")
+    generate_static_site(src, out, M)
+    fresh = scratch / "fresh"
+    generate_static_site(src, fresh, M)
+    return scratch, out, fresh, src
